@@ -3,4 +3,6 @@ package main
 // One blank import per component; each registers its modes in init().
 import (
 	_ "verifharness/internal/c19"
+	_ "verifharness/internal/pubkeycache"
+	_ "verifharness/internal/shuffle"
 )
